@@ -21,6 +21,7 @@ def run(check):
     check.guarded("IDENT-MODE", X.rule_ident_mode)
     check.guarded("PAREN-WRAP", X.rule_paren_wrap)
     check.guarded("FANOUT", X.rule_fanout)
+    check.guarded("OPTCHAIN-LOWERING", X.rule_optchain_lowering)
     from . import c04
 
     check.guarded("ARROW-BLOCK", c04.rule_arrow_block)
